@@ -7,6 +7,16 @@ ALL = ['C%02d' % i for i in range(1, 21)]
 
 # pid -> (technique, level text, level note, design ref)
 CHECKS = {
+ 'C06': ('Coq proof (weighted least-squares optimality of fit_shifts / fit_rscale incl. reflections / fit_rshift / '
+         'fit_general for every list and weighting; exact recovery) + per-run correspondence evaluated inside Coq',
+         'Machine-checked optimality theorems for an exact-rational model of each single-shot fitter (all list '
+         'lengths, all non-negative weights, both reflection branches; rshift via a root-free Cauchy-Schwarz '
+         'argument; general through the proved Gauss-Jordan inverse), exact point-by-point recovery of noise-free '
+         'data, refutation witnesses for the pre-fix code (F1, F12). The model is tied to the current source by '
+         'evaluating `agree06` in Coq on the outputs of the private fitters and of iter_linear_fit(nclip=0).',
+         'x87 rounding is outside the theorems (parameters compared within 2^-28). Exactly degenerate inputs are '
+         'C17\'s domain. Trusted: Coq kernel + vm_compute, python harness (generators, marshalling).',
+         'DESIGN.md section 6 (C06)'),
  'C17': ('Coq proof (Gauss-Jordan inverse correct for every order n; null vector => Singular) + per-run '
          'correspondence of the exact model with linalg.inv evaluated inside Coq',
          'Machine-checked theorems about an exact-rational model of the Gauss-Jordan algorithm (left and right '
